@@ -113,6 +113,9 @@ let () =
                     h_vsname = (if t 6 = "-" then [] else name_of (t 6)); h_vsclass = (if t 7 = "-" then [] else name_of (t 7));
                     h_extag = z (i 8); h_exref = z (i 9); h_version = z (i 10); h_more = z (i 11) } in
           Printf.printf "%s\n" (hex (m_vpackvs h))
+        | "vsfexist" ->
+          let fl = List.map (fun n -> { w_name = n; w_type = z 0; w_isize = z 0; w_esize = z 0; w_order = z 0; w_off = z 0 }) (names_of (body (t 1))) in
+          Printf.printf "%d\n" (if m_vsfexist fl (names_of (t 2)) then 1 else (-1))
         | "vssizeof" ->
           let w = parse_wl ~names:(names_of (t 2)) (t 1) 0 in
           (match m_vssizeof w.wl_fields (Some (names_of (t 3))) with
